@@ -297,6 +297,7 @@ package db
 //@   assert @send:s.out: [sends-the-collected-group] result == grp0 && result.Index == idx0 && len(result.Events) == n0 && n0 > 0
 //@   ensures [index-carried] s.pending != nil && s.pending.Index == idx0
 //@   ensures [cleared-after-commit] n0 > 0 ==> (s.pending != grp0 && len(s.pending.Events) == 0)
+//@   ensures [new-group-shares-no-storage-with-the-sent-one] n0 > 0 ==> (fresh(s.pending) && fresh(s.pending.Events))
 //@   ensures [commit-proceeds] result
 //@   loop 1 invariant [group-kept] s.pending == grp0 && s.pending.Index == idx0 && len(s.pending.Events) == n0
 //
